@@ -236,6 +236,12 @@ func (m *maker) mint(p planRec) *minted {
 	eku, ekuDesc := m.eku(c.Eku)
 	na := m.notAfter(c.Pos)
 	lo := certs.LeafOptions{NotAfter: na, EKU: eku, Precert: c.Type == "precert"}
+	if c.Type == "badpoison" {
+		// critical poison extension whose value is not ASN.1 NULL: an empty OCTET STRING,
+		// a NULL with trailing bytes, or a BOOLEAN
+		lo.Precert = true
+		lo.PoisonValue = [][]byte{{0x04, 0x00}, {0x05, 0x00, 0x00}, {0x01, 0x01, 0xff}}[m.rng.Intn(3)]
+	}
 	if m.rng.Intn(8) == 0 {
 		lo.Key = certs.P384
 	}
